@@ -76,11 +76,12 @@ Record state := {
   disp : Z -> bool;        (* sigaction: true = iv_signal_handler, false = SIG_DFL *)
   owner : bool;            (* sig_owner_pid == getpid() of the modelled (parent) process; false = 0 *)
   lock : option Z;         (* holder of sig_lock *)
-  stg : Z -> stage
+  stg : Z -> stage;
+  masked : Z -> bool       (* the thread has blocked all signals (pthread_sigmask) *)
 }.
 
 Definition init : state :=
-  {| regs := []; total := fun _ => 0; disp := fun _ => false; owner := false; lock := None; stg := fun _ => SIdle |}.
+  {| regs := []; total := fun _ => 0; disp := fun _ => false; owner := false; lock := None; stg := fun _ => SIdle; masked := fun _ => false |}.
 
 Inductive label :=
 | LLock (t : Z)
@@ -94,7 +95,9 @@ Inductive label :=
 | LRead (t id : Z)                       (* iv_event_raw_got_event reads the counter *)
 | LClear (t id : Z)                      (* iv_signal_event: ->active = 0 *)
 | LHandler (t id : Z)                    (* user handler called *)
-| LBlock (t : Z).                        (* thread t blocks in its kernel wait: nothing readable *)
+| LBlock (t : Z)                         (* thread t blocks in its kernel wait: nothing readable *)
+| LMask (t : Z) (all : bool)             (* pthread_sigmask left thread t with all signals blocked / not *)
+| LSaMask (t sig : Z) (full : bool).     (* sigaction installed iv_signal_handler for sig; full: sa_mask blocks every signal *)
 
 Definition upd {A} (f : Z -> A) (k : Z) (v : A) : Z -> A := fun x => if x =? k then v else f x.
 
@@ -119,14 +122,15 @@ Definition set_idle (r : irec) : irec :=
      i_active := i_active r; i_cnt := i_cnt r; i_phase := PIdle |}.
 
 Definition with_regs (s : state) (l : list irec) : state :=
-  {| regs := l; total := total s; disp := disp s; owner := owner s; lock := lock s; stg := stg s |}.
+  {| regs := l; total := total s; disp := disp s; owner := owner s; lock := lock s; stg := stg s; masked := masked s |}.
 Definition with_stg (s : state) (t : Z) (x : stage) : state :=
-  {| regs := regs s; total := total s; disp := disp s; owner := owner s; lock := lock s; stg := upd (stg s) t x |}.
+  {| regs := regs s; total := total s; disp := disp s; owner := owner s; lock := lock s; stg := upd (stg s) t x; masked := masked s |}.
 Definition with_lock (s : state) (o : option Z) : state :=
-  {| regs := regs s; total := total s; disp := disp s; owner := owner s; lock := o; stg := stg s |}.
+  {| regs := regs s; total := total s; disp := disp s; owner := owner s; lock := o; stg := stg s; masked := masked s |}.
 
 Definition holds (s : state) (t : Z) : bool := match lock s with Some u => u =? t | None => false end.
 Definition is_idle (x : stage) : bool := match x with SIdle => true | _ => false end.
+Definition needs_mask (x : stage) : bool := match x with SIdle | SExit => true | _ => false end.
 Definition phase_eqb (a b : phase) : bool :=
   match a, b with PIdle, PIdle | POwed, POwed | PCleared, PCleared => true | _, _ => false end.
 Definition osb_eqb (a b : option bool) : bool :=
@@ -153,7 +157,10 @@ Definition step_gen (fixed : bool) (s : state) (l : label) : option state :=
       | Some _ => None
       | None =>
           match stg s t with
-          | SIdle => Some (with_lock s (Some t))
+          | SIdle =>
+              (* outside the handler sig_lock is only taken with all signals blocked by this thread (spin_lock_sigmask;
+                 iv_signal_event blocks them itself): a delivery inside the critical section would spin on the lock *)
+              if masked s t then Some (with_lock s (Some t)) else None
           | SNeedLock sig => Some (with_stg (with_lock s (Some t)) t (SProc (wake_plan None sig (regs s))))
           | _ => None
           end
@@ -178,7 +185,7 @@ Definition step_gen (fixed : bool) (s : state) (l : label) : option state :=
                           i_active := false; i_cnt := 0; i_phase := PIdle |} in
               Some {| regs := insert r (regs s); total := upd (total s) sig (total s sig + 1);
                       disp := if first then upd (disp s) sig true else disp s;
-                      owner := true; lock := lock s; stg := stg s |}
+                      owner := true; lock := lock s; stg := stg s; masked := masked s |}
             else None
         end
       else None
@@ -197,7 +204,8 @@ Definition step_gen (fixed : bool) (s : state) (l : label) : option state :=
                         owner := owner s; lock := lock s;
                         stg := if negb last && i_excl r && i_active r
                                then upd (stg s) t (SUnreg (handoff_wake fixed r rest))
-                               else stg s |}
+                               else stg s;
+                        masked := masked s |}
               else None
             else None
         end
@@ -248,6 +256,15 @@ Definition step_gen (fixed : bool) (s : state) (l : label) : option state :=
       | None => None
       end
   | LBlock t => if is_idle (stg s t) && quiet_thread t (regs s) then Some s else None
+  | LMask t b =>
+      (* the mask is not opened while the thread holds sig_lock outside the handler (spin_unlock_sigmask unlocks first) *)
+      if b || negb (holds s t && needs_mask (stg s t))
+      then Some {| regs := regs s; total := total s; disp := disp s; owner := owner s; lock := lock s; stg := stg s;
+                   masked := upd (masked s) t b |}
+      else None
+  | LSaMask t sig full =>
+      (* iv_signal_handler runs with every signal blocked (sigfillset(&sa.sa_mask)): it takes sig_lock *)
+      if full then Some s else None
   end.
 
 (* the current code *)
@@ -277,7 +294,7 @@ Fixpoint reject_pos (s : state) (ls : list label) (k : nat) : option nat :=
 Definition child_reset_postfork (s : state) : state :=
   {| regs := []; total := fun _ => 0;
      disp := fun sg => if 0 <? total s sg then false else disp s sg;
-     owner := false; lock := lock s; stg := stg s |}.
+     owner := false; lock := lock s; stg := stg s; masked := masked s |}.
 
 (* ------------------------------------------------------------------------------------------------
    Monitor: decides the property on a label sequence with its own bookkeeping (no lock, no stages of
@@ -307,17 +324,18 @@ Record mstate := {
   m_act : list Z;            (* marked (->active) *)
   m_owed : list Z;           (* posted, not yet read *)
   m_run : list Z;            (* read, handler not yet called *)
-  m_exp : Z -> mexp
+  m_exp : Z -> mexp;
+  m_masked : Z -> bool       (* the thread has all signals blocked *)
 }.
 
-Definition minit : mstate := {| m_regs := []; m_act := []; m_owed := []; m_run := []; m_exp := fun _ => MNone |}.
+Definition minit : mstate := {| m_regs := []; m_act := []; m_owed := []; m_run := []; m_exp := fun _ => MNone; m_masked := fun _ => false |}.
 
 Definition m_with_exp (m : mstate) (t : Z) (e : mexp) : mstate :=
-  {| m_regs := m_regs m; m_act := m_act m; m_owed := m_owed m; m_run := m_run m; m_exp := upd (m_exp m) t e |}.
+  {| m_regs := m_regs m; m_act := m_act m; m_owed := m_owed m; m_run := m_run m; m_exp := upd (m_exp m) t e; m_masked := m_masked m |}.
 
 Definition m_post (m : mstate) (id : Z) : mstate :=
   {| m_regs := m_regs m; m_act := id :: del id (m_act m); m_owed := id :: del id (m_owed m); m_run := m_run m;
-     m_exp := m_exp m |}.
+     m_exp := m_exp m; m_masked := m_masked m |}.
 
 Definition m_quiet (t : Z) (m : mstate) : bool :=
   forallb (fun r => negb (i_thr r =? t) || (negb (mem (i_id r) (m_owed m)) && negb (mem (i_id r) (m_run m)))) (m_regs m).
@@ -333,7 +351,7 @@ Definition mstep (full : bool) (m : mstate) (l : label) : option mstate :=
   | LLock t =>
       match m_exp m t with
       | MNeed sig => Some (m_with_exp m t (MPosts true (sel_plan None sig (m_regs m))))
-      | MNone => Some m
+      | MNone => if m_masked m t then Some m else None      (* sig_lock only with all signals blocked by this thread *)
       | _ => None
       end
   | LUnlock t =>
@@ -346,7 +364,7 @@ Definition mstep (full : bool) (m : mstate) (l : label) : option mstate :=
       if osb_eqb sa (if count_sig sig (m_regs m) =? 0 then Some true else None) && negb (mem id (map i_id (m_regs m))) then
         let r := {| i_id := id; i_thr := t; i_sig := sig; i_excl := excl; i_tt := thisthr; i_addr := addr;
                     i_active := false; i_cnt := 0; i_phase := PIdle |} in
-        Some {| m_regs := insert r (m_regs m); m_act := m_act m; m_owed := m_owed m; m_run := m_run m; m_exp := m_exp m |}
+        Some {| m_regs := insert r (m_regs m); m_act := m_act m; m_owed := m_owed m; m_run := m_run m; m_exp := m_exp m; m_masked := m_masked m |}
       else None
   | LUnreg t id sa =>
       match find id (m_regs m) with
@@ -357,7 +375,8 @@ Definition mstep (full : bool) (m : mstate) (l : label) : option mstate :=
           if osb_eqb sa (if last then Some false else None) then
             Some {| m_regs := rest; m_act := del id (m_act m); m_owed := del id (m_owed m); m_run := del id (m_run m);
                     m_exp := if negb last && i_excl r && mem id (m_act m)
-                             then upd (m_exp m) t (MPosts true (handoff_plan full r rest)) else m_exp m |}
+                             then upd (m_exp m) t (MPosts true (handoff_plan full r rest)) else m_exp m;
+                    m_masked := m_masked m |}
           else None
       end
   | LSigEnter t sig child =>
@@ -386,15 +405,19 @@ Definition mstep (full : bool) (m : mstate) (l : label) : option mstate :=
       end
   | LRead t id =>
       if mem id (m_owed m) then
-        Some {| m_regs := m_regs m; m_act := m_act m; m_owed := del id (m_owed m); m_run := id :: m_run m; m_exp := m_exp m |}
+        Some {| m_regs := m_regs m; m_act := m_act m; m_owed := del id (m_owed m); m_run := id :: m_run m; m_exp := m_exp m; m_masked := m_masked m |}
       else Some m
   | LClear t id =>
-      Some {| m_regs := m_regs m; m_act := del id (m_act m); m_owed := m_owed m; m_run := m_run m; m_exp := m_exp m |}
+      Some {| m_regs := m_regs m; m_act := del id (m_act m); m_owed := m_owed m; m_run := m_run m; m_exp := m_exp m; m_masked := m_masked m |}
   | LHandler t id =>
       if mem id (m_run m) then
-        Some {| m_regs := m_regs m; m_act := m_act m; m_owed := m_owed m; m_run := del id (m_run m); m_exp := m_exp m |}
+        Some {| m_regs := m_regs m; m_act := m_act m; m_owed := m_owed m; m_run := del id (m_run m); m_exp := m_exp m; m_masked := m_masked m |}
       else None
   | LBlock t => if m_quiet t m then Some m else None
+  | LMask t b =>
+      Some {| m_regs := m_regs m; m_act := m_act m; m_owed := m_owed m; m_run := m_run m; m_exp := m_exp m;
+              m_masked := upd (m_masked m) t b |}
+  | LSaMask t sig full => if full then Some m else None     (* the handler runs with all signals blocked *)
   end.
 
 Fixpoint mrun (full : bool) (m : mstate) (ls : list label) : option mstate :=
